@@ -82,6 +82,11 @@ var props = map[string]propSpec{
 		Rule: "rapid draws (finite Decimal, spec) with every subset of the flags + - # space 0 in random order, width absent/1..40, precision absent/0..40/'.', verbs eEfFgG; values are built to tie, nearly tie or carry exactly at the digit the spec selects (incl. the empty kept prefix), to sit at the %g switch-over, to be exact float64 images, zeros, or arbitrary. Checked: (1) fmt.Sprintf equals a reference port of fmt/strconv layout over the exact digits, (2) equals fmt's output for the float64 holding the same value where one exists, (3) Decimal.Append with nil / empty-with-capacity / non-empty buffers equals prefix+Sprintf and leaves the caller's bytes alone, (4) package Format/Append agree with the flag-less spec. A separate sub-check validates the reference port against the installed fmt on float64. Non-trivial = rounding drops a digit or a flag/width changes the output; distinct = distinct (bits, spec, buffer shape).",
 		Assumptions: append([]string{"the installed toolchain's fmt (go1.23) is the reference for layout, as the property states; the reference port is re-validated against it on every run"}, commonAssumptions...),
 	},
+	"C13": {
+		QuickShards: 8, ThoroughShards: 16,
+		Rule: "rapid draws Decimals (all patterns, values around the -6/20 switch of the JSON form) for MarshalJSON: the output must match an RFC 8259 number recogniser, denote the value exactly (independent numeral evaluator), carry no superfluous digits, and round-trip directly and through encoding/json inside a struct, slice, map and pointer; NaN/Inf must give *json.UnsupportedValueError. For UnmarshalJSON: RFC 8259 numbers from a grammar (ties after the 34th digit, long digit strings, exponents in the clamp windows and beyond int16) must give the same Decimal as Parse (error when Parse reports ErrRange), directly and inside documents; null leaves the receiver untouched; JSON strings/bools/arrays/objects must be errors; arbitrary bytes and Go float syntax must not panic and, if accepted, must store what Parse gives. Non-trivial = exponent-form output or >= 20 digits (marshal), any number or non-number JSON value (unmarshal); distinct = distinct input.",
+		Assumptions: append([]string{"encoding/json is the reference for JSON validity of whole documents; byte strings that are not JSON values are outside the statement's 'non-numbers' and only the no-panic/no-wrong-value clauses apply"}, commonAssumptions...),
+	},
 	"C01": {
 		QuickShards: 8, ThoroughShards: 16,
 		Rule: "rapid draws operand pairs (independent; exponent gap -45..45; tie/near-tie constructor at the 34/35-digit boundary; near-cancellation across cohorts; swallowed operand up to gap 12287; zeros; overflow edge) and add/sub; every pair is evaluated under all 6 modes and under all 6 DefaultRoundingMode values against the exact integer sum rounded by ref.RoundX. Non-trivial = the exact sum is not representable (rounding decides) or the operands cancel exactly; distinct = distinct (x bits, y bits, op).",
